@@ -627,6 +627,15 @@ func c19Fidelity(c *core.Ctx, r *rng.R) *core.Result {
 	}
 	var d *document.Document
 	var err error
+	convMode := ""
+	defer func() {
+		// findings of a conversion that shared its converter with another one carry the way it was shared
+		if convMode != "" {
+			for i := range res.Findings {
+				res.Findings[i].Key = "converter-shared:" + convMode + "/" + res.Findings[i].Key
+			}
+		}
+	}()
 	entry := "ConvertString"
 	if r.Chance(1, 4) {
 		entry = "ConvertFile"
@@ -649,6 +658,25 @@ func c19Fidelity(c *core.Ctx, r *rng.R) *core.Result {
 			return
 		}
 		conv := markdown.NewConverter(opts)
+		switch r.Intn(8) {
+		case 0:
+			// the options are given with the call, on a converter that was built with other ones: the call's options decide
+			// how this text is read and shown (the statement holds under every combination of options, however they are passed)
+			other := c19Options(r, r.Intn(64))
+			convMode = "options-given-with-the-call"
+			res.Count("conversions_with_options_given_with_the_call", 1)
+			d, err = markdown.NewConverter(other).ConvertString(src, opts)
+			return
+		case 1:
+			// an earlier conversion on this converter named other options for itself; this one names none and gets the
+			// converter's own: a conversion depends on its own input and options only
+			other := c19Options(r, r.Intn(64))
+			conv.ConvertString("Earlier document\n\n| a | b |\n|---|---|\n| c | d |\n\nInline $x^2$ and ~~old~~ www.example.com\n\n- [ ] task\n", other)
+			convMode = "after-a-call-that-named-other-options"
+			res.Count("conversions_after_a_call_that_named_other_options", 1)
+			d, err = conv.ConvertString(src, nil)
+			return
+		}
 		if len(g.labels) > 0 && r.Bool() {
 			// the converter has been used before, for a document that defines links for the very labels this one uses as plain
 			// bracketed text: a conversion depends on its own input only
@@ -915,6 +943,111 @@ func c19Fidelity(c *core.Ctx, r *rng.R) *core.Result {
 	return res
 }
 
+// c19Batch converts two or three generated files that live in different directories in one BatchConvert call (one
+// converter, one options object or none) and each of them alone with a converter of its own: what a file becomes
+// depends on that file and the options, not on the files converted before it.
+func c19Batch(c *core.Ctx, r *rng.R) *core.Result {
+	res := &core.Result{}
+	mask := r.Intn(64)
+	opts := c19Options(r, mask)
+	root := filepath.Join(c.WorkDir, fmt.Sprintf("batch%d", c.Case))
+	defer os.RemoveAll(root)
+	n := r.Range(2, 3)
+	var inputs, srcs []string
+	for i := 0; i < n; i++ {
+		g := &mdGen{r: r, gfm: opts.EnableGFM, math: opts.EnableMath, feats: map[string]bool{}, heads: map[string]int{}}
+		src := g.document()
+		// pictures named relative to the file, without a description and with one
+		src += "\n![](" + []string{"pic.png", "img/pic.png", "./p.png"}[r.Intn(3)] + ")\n\nText with ![alt" + fmt.Sprint(i) + "](fig.png) inside.\n"
+		dir := filepath.Join(root, fmt.Sprintf("dir%d", i))
+		if err := os.MkdirAll(dir, 0755); err != nil {
+			res.Inconcl = "cannot create scratch directory: " + err.Error()
+			return res
+		}
+		in := filepath.Join(dir, fmt.Sprintf("file%d.md", i))
+		writeFile(in, []byte(src))
+		inputs = append(inputs, in)
+		srcs = append(srcs, src)
+	}
+	how := []string{"no-options", "options-with-the-call", "options-at-construction"}[r.Intn(3)]
+	texts := func(path string) (string, error) {
+		d, err := document.Open(path)
+		if err != nil {
+			return "", err
+		}
+		var sb strings.Builder
+		for _, el := range d.Body.Elements {
+			switch v := el.(type) {
+			case *document.Paragraph:
+				for _, rr := range v.Runs {
+					sb.WriteString(rr.Text.Content)
+				}
+				sb.WriteString("\n")
+			case *document.Table:
+				sb.WriteString("<table>\n")
+				for i := range v.Rows {
+					for j := range v.Rows[i].Cells {
+						for _, p := range v.Rows[i].Cells[j].Paragraphs {
+							for _, rr := range p.Runs {
+								sb.WriteString(rr.Text.Content)
+							}
+						}
+						sb.WriteString("|")
+					}
+					sb.WriteString("\n")
+				}
+			}
+		}
+		return sb.String(), nil
+	}
+	build := func() (*markdown.Converter, *markdown.ConvertOptions) {
+		o := *opts
+		switch how {
+		case "no-options":
+			return markdown.NewConverter(nil), nil
+		case "options-with-the-call":
+			return markdown.NewConverter(nil), &o
+		}
+		return markdown.NewConverter(&o), nil
+	}
+	outDir := filepath.Join(root, "out")
+	var err error
+	if cg := core.Catch(func() { conv, callOpts := build(); err = conv.BatchConvert(inputs, outDir, callOpts) }); cg != nil {
+		res.Add("independence/batch-convert/"+cg.Key(), "BatchConvert panicked on generated Markdown: "+cg.Msg, cg.Stack, srcs[0])
+		return res
+	}
+	if err != nil {
+		res.Add("independence/batch-convert/error", fmt.Sprintf("BatchConvert of %d generated files failed: %v", n, err), srcs[0])
+		return res
+	}
+	for i, in := range inputs {
+		aloneOut := filepath.Join(root, fmt.Sprintf("alone%d.docx", i))
+		if cg := core.Catch(func() { conv, callOpts := build(); err = conv.ConvertFile(in, aloneOut, callOpts) }); cg != nil || err != nil {
+			res.Add("independence/batch-convert/alone-conversion-fails", fmt.Sprintf("file %d converts in a batch but not alone: %v %v", i, err, cg), srcs[i])
+			return res
+		}
+		got, e1 := texts(filepath.Join(outDir, fmt.Sprintf("file%d.docx", i)))
+		want, e2 := texts(aloneOut)
+		if e1 != nil || e2 != nil {
+			res.Add("independence/batch-convert/output-unreadable", fmt.Sprintf("file %d: batch output: %v, alone output: %v", i, e1, e2), srcs[i])
+			return res
+		}
+		res.Count("batch_files_compared_with_their_conversion_alone", 1)
+		if got != want {
+			pos := "first-file"
+			if i > 0 {
+				pos = "later-file"
+			}
+			res.Add("independence/batch-convert/"+how+"/"+pos+"/text-differs-from-conversion-alone", fmt.Sprintf("file %d of a batch of %d (files in different directories): in the batch %q, alone %q", i, n, lastStr(got, 600), lastStr(want, 600)), srcs[i])
+		}
+	}
+	res.Count("batches:"+how, 1)
+	res.Nontrivial = true
+	res.Sig = fmt.Sprintf("batch|%d|%s|%x", mask, how, h64(strings.Join(srcs, "\x00")))
+	res.Sample = map[string]interface{}{"case": c.Case, "kind": "batch", "files": n, "options": how, "options_mask": mask}
+	return res
+}
+
 func nestedCls(t mdTok) string {
 	if (t.em && t.strong) || (t.em && t.code) {
 		return "/nested"
@@ -1043,12 +1176,15 @@ func init() {
 		ID:    "C19",
 		Level: "exploration",
 		Rule: "two kinds of cases under every combination of {GFM, tables, task lists, math, footnotes, TOC} and TOC level 0-7. Totality (2 of 3 cases): hostile inputs (random runes, random bytes, 100-10000-deep >/*/[ nesting, pathological emphasis runs, wide/long tables, unterminated fences, deeply nested \\frac/\\sqrt, footnote loops, huge task lists, setext/ATX mixes, raw HTML/CDATA, hostile link/image targets, byte-mutated generated Markdown), written to disk before ConvertBytes; no panic, no hang (watchdog + isolated retry), result saves to a well-formed package; LaTeXToOMMLString -> AddMathFormula on the same inputs. " +
-			"Fidelity (1 of 3; one case in four through ConvertFile, i.e. Markdown read from a file and the document re-read from the package ConvertFile wrote; one in twelve with a paragraph on one physical line of 9-130 KiB followed by more text): Markdown printed from a block/inline tree (headings 1-6, paragraphs with emphasis/strong/code/strike/links/autolinks/bare www addresses/soft breaks and span trees (spans of different kinds nested up to three deep with text before, between and after the inner spans), bullet/ordered/nested lists, task lists, block quotes, fenced code (``` or ~~~, fence indented by 0-3 columns, closing fence indented independently) and indented code whose lines start with blanks and tabs in any mix (expected line = the source line minus the block's own indentation columns, a partly used tab leaving blanks), thematic breaks, blocks nested in blocks (a fenced code block or a list inside a quote, a fenced code block or a quote inside a bullet/ordered list item), tables with alignments, also tables that consist of their header row only) whose words are unique tokens: the document's token sequence equals the tree's, the paragraph carrying an inline sequence shows exactly the visible text Markdown defines for it (white space aside; nothing dropped, nothing invented), heading tokens sit in Heading<n> paragraphs, every token is carried by a run with exactly the italic/bold/strike formats of the spans enclosing it (code: code font), code blocks keep lines and indentation, tables keep dimensions, cell text and column alignment. Non-trivial: >=3 tokens (fidelity) / every totality input; distinct = options + input.",
+			"Fidelity (1 of 3; one case in four through ConvertFile, i.e. Markdown read from a file and the document re-read from the package ConvertFile wrote; one in twelve with a paragraph on one physical line of 9-130 KiB followed by more text): Markdown printed from a block/inline tree (headings 1-6, paragraphs with emphasis/strong/code/strike/links/autolinks/bare www addresses/soft breaks and span trees (spans of different kinds nested up to three deep with text before, between and after the inner spans), bullet/ordered/nested lists, task lists, block quotes, fenced code (``` or ~~~, fence indented by 0-3 columns, closing fence indented independently) and indented code whose lines start with blanks and tabs in any mix (expected line = the source line minus the block's own indentation columns, a partly used tab leaving blanks), thematic breaks, blocks nested in blocks (a fenced code block or a list inside a quote, a fenced code block or a quote inside a bullet/ordered list item), tables with alignments, also tables that consist of their header row only) whose words are unique tokens: the document's token sequence equals the tree's, the paragraph carrying an inline sequence shows exactly the visible text Markdown defines for it (white space aside; nothing dropped, nothing invented), heading tokens sit in Heading<n> paragraphs, every token is carried by a run with exactly the italic/bold/strike formats of the spans enclosing it (code: code font), code blocks keep lines and indentation, tables keep dimensions, cell text and column alignment. One fidelity case in four shares its converter: the options are given with the call on a converter built with other options (the call's options decide), or an earlier call on the same converter named other options (this call, naming none, gets the converter's own). One fidelity case in ten is a batch: two or three generated files in different directories, each with pictures named relative to the file, converted by one BatchConvert call (options absent / given with the call / given at construction) and each alone by a converter of its own - the texts must agree. Non-trivial: >=3 tokens (fidelity) / every totality input / every batch; distinct = options + input.",
 		Cases: func(t string) int { return tierN(t, 4500, 400000) },
 		Run: func(c *core.Ctx) *core.Result {
 			r := caseRng(c)
 			document.VerifResetGlobals()
 			if c.Case%3 == 2 {
+				if c.Case%30 == 2 {
+					return c19Batch(c, r)
+				}
 				return c19Fidelity(c, r)
 			}
 			return c19Totality(c, r)
